@@ -3,7 +3,7 @@
 From XcpModel Require Import Base Backup.
 From XcpProofs Require Import BackupProofs.
 From XcpModel Require Import Extracted.
-From XcpProofs Require Import ExtractedOk.
+From XcpProofs Require Import XBackup.
 From Coq Require Import String.
 From XcpProofs Require Import PinnedSource.
 From XcpPins Require Import Pin_backup_get_backup_path Pin_backup_has_backup Pin_backup_is_num_backup Pin_operations_new.
